@@ -159,7 +159,7 @@ def main_property(prop, tier="quick", seed=0, jobs=None):
             problems.append(f"{name}: {e.get('kind')} {json.dumps(e)[:800]}")
         for vf in r.get("validation_failures", []):
             problems.append(f"{name}: shim/vacuity validation failed: {json.dumps(vf)[:800]}")
-        if r.get("paths", 0) and not r.get("obligations", 0) and not optional:
+        if r.get("paths", 0) and not r.get("obligations", 0) and not optional and not case.get("vacuous_ok"):
             problems.append(f"{name}: VACUOUS (no obligation reached on {r.get('paths')} paths)")
         for v in r.get("violations", []):
             k = match_known(known, name, v["obligation"])
